@@ -25,7 +25,7 @@ FIXED_RANDOM = bytes(range(0xA0, 0xB0))
 DIMS = {
     "link_keys": [1, 0, 3],
     "children": ["none", "two-with-nwk", "two-one-without-nwk"],
-    "tc_known": [True, False],
+    "tc_known": [True, False, "unknown-copy"],   # unknown as zigpy's EUI64.UNKNOWN object itself / as an equal copy (what a JSON backup yields)
     "hashed": ["present", "absent"],
     "nwk_fc": [0x1234, 0, 1, 0xFFFFFFFF],
     "channel": [15, 11, 26],
@@ -133,7 +133,8 @@ def make_info(ctx, c, variant=0):
         channel=zt.uint8_t(c["channel"]), channel_mask=zt.Channels.from_channel_list([c["channel"], 20]), security_level=zt.uint8_t(5),
         network_key=zs.Key(key=zt.KeyData(bytes([0x60 + x] * 15 + [7])), tx_counter=zt.uint32_t(c["nwk_fc"]), seq=zt.uint8_t(c["key_seq"])),
         tc_link_key=zs.Key(key=zt.KeyData(tc_key), tx_counter=zt.uint32_t(0x500 + x),
-                           partner_ieee=node_ieee if c["tc_known"] else zt.EUI64.UNKNOWN),
+                           partner_ieee=node_ieee if c["tc_known"] is True else
+                           (zt.EUI64.UNKNOWN if c["tc_known"] is False else zt.EUI64.convert("ff:ff:ff:ff:ff:ff:ff:ff"))),
         key_table=keys, children=children, nwk_addresses=nwk_addresses, stack_specific=stack_specific, metadata={}, source="verif",
     )
     no = zs.NodeInfo(nwk=zt.NWK(0), ieee=node_ieee, logical_type=__import__("zigpy.zdo.types", fromlist=["x"]).LogicalType.Coordinator)
@@ -158,7 +159,7 @@ def one_case(version, rewritable, c):
         ni, no = make_info(ctx, c)
         want = copy.deepcopy(ni)
         want_ieee = zt.EUI64(no.ieee)
-        supplied_tc_known = c["tc_known"]
+        supplied_tc_known = c["tc_known"] is True
         n_sec = len(ctx.ncp.security_frames)
         r = ctx.run(ctx.app.write_network_info(network_info=ni, node_info=no))
         if r[0] != "ok":
